@@ -199,7 +199,11 @@ Spec == Init /\ [][Next]_vars
 \*   u: small single-field value of a third type
 \*   L: value larger than the sticky layer's buffer, incompressible
 \*   R: large repetitive (compressible) value
-Classes == {"s", "t", "u", "L", "R"}
+\*   n: value whose columns mix nulls with several distinct non-null values and
+\*      hold unions, maps, sets and nested containers, so that a writer takes its
+\*      multi-write paths (e.g. VNG: values + null-runs vectors, dict/const/plain)
+\*   o: a second value of n's type with nulls and values in other positions
+Classes == {"s", "t", "u", "L", "R", "n", "o"}
 Scripts == UNION {[1..n -> Classes] : n \in 0..ScriptLen}
 ExportScripts == ScriptFile = "" \/ JsonSerialize(ScriptFile, SetToSeq(Scripts))
 ASSUME ExportScripts
